@@ -8,7 +8,7 @@ from harness import treeops as T
 
 PROPERTY = 'C07'
 LEVEL = 'model_checking'
-REACH_POINTS = ['fidelity', 'independence.applied', 'leaf_sharing']
+REACH_POINTS = ['custom', 'fidelity', 'independence.applied', 'leaf_sharing']
 
 CLONE_KINDS = ['clone', 'clone_deep', 'copy', 'deepcopy']
 DEEP = {'clone_deep', 'deepcopy'}
@@ -171,6 +171,64 @@ def fidelity(kind, root, node, c):
   return None
 
 
+@pg.functor()
+def _fn2(a, b=2, c=3):
+  return (a, b, c)
+
+
+CUSTOM_KINDS = ['functor_rebind', 'functor_rebind_default', 'dna_metadata', 'dna_userdata', 'dna_sealed']
+
+
+def h_custom(params, kind, ck, side):
+  """Classes with their own clone code (functors: bound / specified argument sets; DNA: metadata, user data and their
+  cloneable-key sets): one later change on either side is not observable through the other."""
+  kind, ck, side = concretize(kind, range(len(CUSTOM_KINDS))), concretize(ck, range(len(CLONE_KINDS))), bool(side)
+  with untraced():
+    kname, how = CUSTOM_KINDS[kind], CLONE_KINDS[ck]
+    reach('custom')
+    if kname.startswith('functor'):
+      x = _fn2(1)
+      y = _do_clone(how, x)
+      target, other = (y, x) if side else (x, y)
+      before = (other.specified_args, dict(other.bound_args) if hasattr(other.bound_args, 'items') else set(other.bound_args), other())
+      target.rebind(b=5 if kname == 'functor_rebind' else 2)
+      try:
+        got = other(b=9)
+      except TypeError as e:
+        return Violation(f'custom:{kname}:{how}:other_side_refuses_late_binding', f'after rebinding b on the {"clone" if side else "original"}: {e!r}'[:300])
+      if got != (1, 9, 3):
+        return Violation(f'custom:{kname}:{how}:other_side_result', repr(got))
+      after = (other.specified_args, dict(other.bound_args) if hasattr(other.bound_args, 'items') else set(other.bound_args), other())
+      if after != before:
+        return Violation(f'custom:{kname}:{how}:other_side_bookkeeping_changed', f'{before!r} -> {after!r}')
+      return None
+    d = pg.DNA([0, 1])
+    d.set_metadata('m0', 1, cloneable=True)
+    d.set_userdata('u0', 1, cloneable=True)
+    if kname == 'dna_sealed':
+      d.seal()
+      try:
+        c = _do_clone(how, d)
+      except Exception as e:  # pylint: disable=broad-except
+        return Violation(f'custom:dna_sealed:{how}:clone_raises:{type(e).__name__}', repr(e)[:200])
+      if not c.is_sealed or not pg.eq(c, d) or dict(c.metadata) != {'m0': 1}:
+        return Violation(f'custom:dna_sealed:{how}:clone_differs', f'sealed={c.is_sealed} metadata={dict(c.metadata)!r}')
+      return None
+    c = _do_clone(how, d)
+    target, other = (c, d) if side else (d, c)
+    before = pg.to_json(other)
+    setter = 'set_metadata' if kname == 'dna_metadata' else 'set_userdata'
+    getattr(target, setter)('k', 5, cloneable=True)
+    if pg.to_json(other) != before:
+      return Violation(f'custom:{kname}:{how}:other_side_serialization_changed', f'{before!r} -> {pg.to_json(other)!r}'[:400])
+    getattr(other, setter)('k', 7, cloneable=False)
+    c2 = other.clone()
+    store = c2.metadata if kname == 'dna_metadata' else c2.userdata
+    if 'k' in store:
+      return Violation(f'custom:{kname}:{how}:non_cloneable_value_carried_over', repr(dict(store)))
+  return None
+
+
 def _count_nodes(skel):
   with untraced():
     return len(T.nodes_of(SKELS[skel]((1, 2, 3, 4))))
@@ -293,9 +351,12 @@ def shards(tier, seed):
   b = 40 if quick else 400
   for skel in SKELS:
     out.append(dict(name=f'fidelity:{skel}', fn='h_fidelity', params=dict(skel=skel), args=_FA, budget_s=b * 2, per_path_s=15))
+  out.append(dict(name='custom', fn='h_custom', params={}, args=[('kind', 'int'), ('ck', 'int'), ('side', 'bool')], budget_s=b, per_path_s=15))
   iskels = ['list', 'dict', 'obj', 'typed'] if quick else ['list', 'dict', 'obj', 'mixed', 'flat', 'typed', 'partial', 'ref']
   for skel in iskels:
     for op in (IND_OPS if quick else T.MUTATING):
+      if not T.op_fits(op, skel):
+        continue
       out.append(dict(name=f'indep:{skel}:{op}', fn='h_independence', params=dict(skel=skel, op=op, any_node=not quick), args=_IA,
                       budget_s=b, per_path_s=15))
   return out
